@@ -52,6 +52,24 @@ fn check_case(case: &Case, cx: &mut Ctx) -> Result<(), Failure> {
 			cx.obs(1);
 		}
 	}
+	// serde routes are constructors too: the owned target accepts exactly what the checked constructor
+	// accepts; the borrowed target (zero-copy, so it may refuse a JSON string with escapes) never accepts more
+	if let Ok(s) = std::str::from_utf8(bytes) {
+		let json = serde_json::to_string(s).unwrap();
+		let so = g("serde owned", || serde_json::from_str::<DataUrlBuf>(&json).map(|d| d.as_str().to_string()).map_err(|e| e.to_string()))?;
+		ensure!(so.is_ok() == b.is_ok(), "constructors-disagree:serde-owned", "{:?}: deserialising into DataUrlBuf accepts = {}, DataUrl::new accepts = {}", shown, so.is_ok(), b.is_ok());
+		if let Ok(t) = &so {
+			ensure!(t == s, "text-changed:serde-owned", "{:?}: deserialised DataUrlBuf has text {:?}", shown, t);
+		}
+		let sb = g("serde borrowed", || serde_json::from_str::<&DataUrl>(&json).map(|d| d.as_str().to_string()).map_err(|e| e.to_string()))?;
+		if let Ok(t) = &sb {
+			ensure!(b.is_ok(), "constructors-disagree:serde-borrowed", "{:?}: deserialising into &DataUrl accepts what DataUrl::new rejects", shown);
+			ensure!(t == s, "text-changed:serde-borrowed", "{:?}: deserialised &DataUrl has text {:?}", shown, t);
+		} else if json.len() == s.len() + 2 {
+			ensure!(b.is_err(), "constructors-disagree:serde-borrowed", "{:?}: deserialising the escape-free JSON string into &DataUrl fails ({:?}) although DataUrl::new accepts", shown, sb);
+		}
+		cx.obs(2);
+	}
 	match (&b, &o) {
 		(Err(pb), Err(po)) => {
 			ensure!(*pb, "error-payload:new", "{:?}: DataUrl::new does not hand back the input (same address) in its error", shown);
@@ -110,6 +128,39 @@ fn check_case(case: &Case, cx: &mut Ctx) -> Result<(), Failure> {
 	let dd: &DataUrl = &ob;
 	ensure!(dd.media_type().map(|s| s.to_string()) == bm && dd.is_base_64_encoded() == bb && dd.encoded_data() == bd, "deref-vs-owned", "{:?}: DataUrlBuf deref'd to DataUrl reports different views", shown);
 	ensure!(d.as_uri().as_bytes() == bytes && d.as_str() == text, "as_uri-text", "{:?}: as_uri()/as_str() differ from the text", shown);
+	// every other view of the same value: Deref, AsRef, Borrow, serialisation
+	{
+		let u1: &iref::Uri = &**d;
+		let u2: &iref::Uri = AsRef::<iref::Uri>::as_ref(d);
+		let u3: &iref::Uri = AsRef::<iref::Uri>::as_ref(&ob);
+		let d2: &DataUrl = AsRef::<DataUrl>::as_ref(d);
+		let d3: &DataUrl = AsRef::<DataUrl>::as_ref(&ob);
+		let d4: &DataUrl = std::borrow::Borrow::<DataUrl>::borrow(&ob);
+		for (name, got) in [("Deref", u1.as_bytes()), ("AsRef<Uri>", u2.as_bytes()), ("AsRef<Uri> (owned)", u3.as_bytes()), ("AsRef<DataUrl>", d2.as_bytes()), ("AsRef<DataUrl> (owned)", d3.as_bytes()), ("Borrow<DataUrl>", d4.as_bytes())] {
+			ensure!(got == bytes, format!("view-text:{name}"), "{:?}: the {name} view has text {:?}", shown, String::from_utf8_lossy(got));
+		}
+		ensure!(d3.media_type().map(|s| s.to_string()) == bm && d4.encoded_data() == bd, "view-parts", "{:?}: AsRef/Borrow views of the owned form report different parts", shown);
+		// clone_from in both directions with values whose delimiters sit elsewhere
+		for partner in ["data:,", "data:text/plain;base64,QUJD", "data:a/b,hello%20world", "data:;base64,", "data:application/octet-stream,%00"] {
+			let pb = DataUrlBuf::new(partner.as_bytes().to_vec()).map_err(|_| Failure::new("harness", format!("partner {:?} rejected", partner)))?;
+			let mut x = pb.clone();
+			x.clone_from(&ob);
+			let got = g("accessors after clone_from", || (x.as_str().to_string(), x.media_type().map(|s| s.to_string()), x.is_base_64_encoded(), x.encoded_data().to_string()))?;
+			ensure!(got == (text.clone(), bm.clone(), bb, bd.clone()), "clone_from", "{:?}: a DataUrlBuf holding {:?} after clone_from(this value) reports (text, media, base64, data) = {:?}", shown, partner, got);
+			let mut y = ob.clone();
+			y.clone_from(&pb);
+			let pd = DataUrl::new(partner.as_bytes()).unwrap();
+			let got = g("accessors after clone_from", || (y.as_str().to_string(), y.media_type().map(|s| s.to_string()), y.is_base_64_encoded(), y.encoded_data().to_string()))?;
+			let want = (partner.to_string(), pd.media_type().map(|s| s.to_string()), pd.is_base_64_encoded(), pd.encoded_data().to_string());
+			ensure!(got == want, "clone_from", "{:?}: this value after clone_from({:?}) reports {:?}, expected {:?}", shown, partner, got, want);
+			cx.obs(2);
+		}
+		let json = serde_json::to_string(text.as_str()).unwrap();
+		let j1 = serde_json::to_string(d).map_err(|e| Failure::new("serialize", e.to_string()))?;
+		let j2 = serde_json::to_string(&ob).map_err(|e| Failure::new("serialize-owned", e.to_string()))?;
+		ensure!(j1 == json && j2 == json, "serialize-text", "{:?}: serialises to {} / {} instead of {}", shown, j1, j2, json);
+		cx.obs(10);
+	}
 	cx.obs(10);
 	// decoded data
 	let dec_b = g("decoded_data", || d.decoded_data().map(|c| c.to_vec()).map_err(|e| e.to_string()))?;
@@ -211,6 +262,31 @@ impl Prop for C18 {
 
 	fn check(case: &Case, cx: &mut Ctx) -> Result<(), Failure> {
 		check_case(case, cx)
+	}
+
+	fn enumerate(tier: Tier, shard: usize, nshards: usize, f: &mut dyn FnMut(Case, bool) -> bool) -> Vec<&'static str> {
+		// every sequence of <= 5 (thorough: 6) tokens after "data:" (repeated and misplaced ";base64", ",", ";")
+		let tokens = [";base64", ";", ",", "a/b", "x", "=", "base64", "#", "%2C", "Zg==", ":"];
+		let maxlen = tier.pick(5, 6);
+		let k = tokens.len() as u64;
+		let mut i = 0u64;
+		for len in 0..=maxlen {
+			for mut m in 0..k.pow(len as u32) {
+				i += 1;
+				let mine = i as usize % nshards == shard;
+				let mut t = String::from("data:");
+				for _ in 0..len {
+					if mine {
+						t.push_str(tokens[(m % k) as usize]);
+					}
+					m /= k;
+				}
+				if mine && !f(Case { input: Input::from_bytes(t.into_bytes()) }, true) {
+					return vec![];
+				}
+			}
+		}
+		vec!["every sequence of <= 5 (thorough 6) tokens over {;base64 ; , a/b x = base64 # %2C Zg== :} after 'data:'"]
 	}
 
 	fn floors(_tier: Tier) -> Vec<(&'static str, u64)> {
